@@ -7,7 +7,7 @@
 (*     step on what the code really did                                    *)
 (* Environment: TRACE=<file.ndjson>                                        *)
 (***************************************************************************)
-EXTENDS TraceBase, MonC07, MonC08, MonC09, MonC10, MonC11, MonC12, MonC13, MonC19
+EXTENDS TraceBase, MonC01, MonC07, MonC08, MonC09, MonC10, MonC11, MonC12, MonC13, MonC15, MonC19
 
 On(name) == name \in DOMAIN IOEnv /\ IOEnv[name] = "1"
 
@@ -28,23 +28,26 @@ Init == /\ l = 1 /\ nodes = <<>> /\ env = EnvInit /\ mon = <<>>
         /\ conf = [calls |-> 0, ndiv |-> 0, divs |-> <<>>]
         /\ viol = [n |-> 0, list |-> <<>>]
 
-MonInit == [C07 |-> C07Init, C11 |-> C11Init, C12 |-> C12Init, C08 |-> C08Init, C09 |-> C09Init, C10 |-> C10Init, C13 |-> C13Init, C19 |-> C19Init]
+MonInit == [C01 |-> C01Init, C07 |-> C07Init, C11 |-> C11Init, C12 |-> C12Init, C08 |-> C08Init, C09 |-> C09Init, C10 |-> C10Init, C13 |-> C13Init, C15 |-> C15Init, C19 |-> C19Init]
 
 ObsOf(e, prev) ==
     [node |-> e.node, call |-> e.call, args |-> e.args, res |-> e.res, out |-> e.out,
      hlog |-> e.hlog, now |-> e.now,
-     pre |-> prev.pub, post |-> e.pub, hpre |-> prev.hook, hpost |-> e.hook, env |-> env]
+     pre |-> prev.pub, post |-> e.pub, hpre |-> prev.hook, hpost |-> e.hook, env |-> env,
+     static |-> [pol |-> prev.st.pol, codec |-> prev.st.codec, hrel |-> prev.st.hrel, hpred |-> prev.st.hpred]]
     @@ (IF HasField(e, "acc") THEN [acc |-> e.acc] ELSE <<>>)
     @@ (IF HasField(e, "tag") THEN [tag |-> e.tag] ELSE <<>>)
 
 MonStep(m, o) ==
-    [C07 |-> IF On("MON_C07") THEN C07Step(m.C07, o) ELSE m.C07,
+    [C01 |-> IF On("MON_C01") THEN C01Step(m.C01, o) ELSE m.C01,
+     C07 |-> IF On("MON_C07") THEN C07Step(m.C07, o) ELSE m.C07,
      C11 |-> IF On("MON_C11") THEN C11Step(m.C11, o) ELSE m.C11,
      C08 |-> IF On("MON_C08") THEN C08Step(m.C08, o) ELSE m.C08,
      C09 |-> IF On("MON_C09") THEN C09Step(m.C09, o) ELSE m.C09,
      C10 |-> IF On("MON_C10") THEN C10Step(m.C10, o) ELSE m.C10,
      C12 |-> IF On("MON_C12") THEN C12Step(m.C12, o) ELSE m.C12,
      C13 |-> IF On("MON_C13") THEN C13Step(m.C13, o) ELSE m.C13,
+     C15 |-> IF On("MON_C15") THEN C15Step(m.C15, o) ELSE m.C15,
      C19 |-> IF On("MON_C19") THEN C19Step(m.C19, o) ELSE m.C19]
 
 MonViols(m) == [p \in DOMAIN m |-> m[p].v]
@@ -83,6 +86,14 @@ Next ==
                              ELSE (e.node :> [st |-> AbsState(e, prev.st), pub |-> e.pub, hook |-> e.hook]) @@ nodes
                  /\ mon' = (e.node :> m1) @@ mon
                  /\ UNCHANGED env
+         [] e.ev = "group" ->
+              \* a driver-level comparison across several instances / runs
+              LET gv == IF e.prop = "C01" /\ On("MON_C01") THEN C01Group(e) ELSE {}
+                  nv == IF gv = {} THEN <<>>
+                        ELSE <<[line |-> l, run |-> env.run, call |-> "group:" \o e.kind, v |-> (e.prop :> gv)]>>
+              IN /\ viol' = [n |-> viol.n + Len(nv),
+                             list |-> IF Len(viol.list) >= MaxList THEN viol.list ELSE viol.list \o nv]
+                 /\ UNCHANGED <<nodes, env, mon, conf>>
          [] OTHER -> UNCHANGED <<nodes, env, mon, conf, viol>>
 
 Spec == Init /\ [][Next]_vars
